@@ -38,6 +38,7 @@ class Outcome:
         self.finite = {}  # name -> array/scalar that must not be bad
         self.alts = {}  # name -> [(finding key, alternative want)]
         self.same_keys = set()
+        self.lemmas = []
         self.extra_axioms = []  # z3 facts (sound instances) supplied by the harness
         self.info = {}
 
@@ -59,6 +60,11 @@ class Outcome:
 
     def fin(self, name, a):
         self.finite[name] = a
+
+    def lemma(self, name, c):
+        """an auxiliary fact: proved first (as an obligation of its own); once proved it is
+        available as an assumption to the scenario's other obligations"""
+        self.lemmas.append((name, c))
 
 
 # --------------------------------------------------------------------------------------
@@ -628,6 +634,11 @@ class Prover:
             self.infeasible_paths = getattr(self, "infeasible_paths", 0) + 1
             return "infeasible"
         reach = r
+        for lname, lc in getattr(out, "lemmas", []):
+            lz = lc.z if isinstance(lc, SB) else (z3.BoolVal(bool(lc)) if isinstance(lc, (bool, _np.bool_)) else lc)
+            self._prove("%s/lemma:%s" % (pname, lname), pc, lz, out, sc, params, None, reach)
+            if self.records and self.records[-1]["verdict"] == "unsat":
+                out.extra_axioms.append(lz)
         for kind, k, a, b in goals:
             oname = "%s/%s" % (pname, k)
             try:
